@@ -1048,6 +1048,84 @@ def q_double_charge(o, tier):
             'witness': {'traces': len(tr), 'sample': [list(e) for e in tr[0]]}, 'functions': sorted(short(x) for x in sk.functions_seen)}
 
 
+def q_purge_race(o, tier):
+    """C11.M2: thread A = an API handler of the Watcher (add_appointment / get_appointment / get_subscription_info), thread B =
+    the Gatekeeper's block connection that purges outdated users (HashMap::remove under the users lock). A authenticates the
+    user (first critical section on `users`) and looks the same user up again (second critical section). Bad run: B's removal
+    is ordered after A's authentication section and before A's next look-up, and A unwraps that look-up: the handler panics.
+    Only the *first* look-up after the authentication is examined: once it has answered "not expired", a purge needs
+    expiry_delta + 1 further blocks (assumption: fewer than that connect during one request)."""
+    funcs, idx, t_mir, err = load_mir('teos')
+    if funcs is None:
+        return {'verdict': 'inconclusive', 'reason': 'MIR dump failed'}
+
+    def alpha(c):
+        if re.search(r'Gatekeeper::authenticate_user$', c):
+            return 'auth'
+        if re.search(r'Gatekeeper::(has_subscription_expired|get_user_info)$', c):
+            return 'user.lookup'
+        if re.search(r'^(?:std::result::|std::option::)?(?:Result|Option)::<.*(?:AuthenticationFailure|UserInfo).*>::(unwrap|expect)$', c):
+            return 'user.unwrap'
+        if re.search(r'HashMap::<(?:UserId|TowerId), UserInfo>::(remove|retain|clear)(?:::<.*>)?$', re.sub(r'(?:teos_common::|gatekeeper::|std::collections::|hash_map::)', '', c)):
+            return 'user.remove'
+        return None
+    sk = SK.Skeletons(funcs, idx, teos_lock_name, alpha,
+                      event_filter=lambda ev: ev[0] == 'call' or (ev[0] in ('acq', 'rel') and ev[1] == 'users'))
+    fb = [n for n in funcs if re.match(r'^gatekeeper::<impl at .*?>::filtered_block_connected$', n)]
+    if len(fb) != 1:
+        return {'verdict': 'inconclusive', 'reason': 'Gatekeeper::filtered_block_connected not found'}
+    tb_all = sorted(t for t in set(sk.traces(fb[0])) if ('call', 'user.remove') in t)
+    if not tb_all:
+        return {'verdict': 'inconclusive', 'reason': 'no purge (HashMap::remove on the users map) found in Gatekeeper::filtered_block_connected'}
+    failed, queries, solver_s, wit = [], 0, 0.0, {}
+    for entry in ('add_appointment', 'get_appointment', 'get_subscription_info'):
+        fa = [n for n in funcs if re.match(r'^watcher::<impl at .*?>::%s$' % entry, n)]
+        if len(fa) != 1:
+            return {'verdict': 'inconclusive', 'reason': 'Watcher::%s not found' % entry}
+        ta_all = sorted(t for t in set(sk.traces(fa[0])) if ('call', 'auth') in t and ('call', 'user.lookup') in t)
+        if sk.problems or not ta_all:
+            return {'verdict': 'inconclusive', 'reason': 'skeleton of Watcher::%s not found: %s' % (entry, sk.problems[:2])}
+        wit[entry] = {'traces': len(ta_all), 'sample': [list(e) for e in ta_all[0]][:14]}
+        hit = False
+        for ta in ta_all:
+            ia = ta.index(('call', 'auth'))
+            rel_auth = next((k for k in range(ia, len(ta)) if ta[k] == ('rel', 'users')), None)
+            il = next((k for k in range(ia + 1, len(ta)) if ta[k] == ('call', 'user.lookup')), None)
+            if rel_auth is None or il is None:
+                continue
+            acq_l = next((k for k in range(il, len(ta)) if ta[k] == ('acq', 'users')), None)
+            rel_l = next((k for k in range(il, len(ta)) if ta[k] == ('rel', 'users') and k > (acq_l or 0)), None)
+            if acq_l is None or rel_l is None:
+                continue
+            # is the look-up's result unwrapped (before the next look-up)?
+            nxt = next((k for k in range(rel_l, len(ta)) if (ta[k][0] == 'call' and ta[k][1] in ('user.unwrap', 'user.lookup')) or ta[k] == ('acq', 'users')), None)
+            if nxt is None or ta[nxt] != ('call', 'user.unwrap'):
+                continue
+            for tb in tb_all:
+                ir = tb.index(('call', 'user.remove'))
+                text = _interleave_query(ta, tb, [('a', min(rel_auth, acq_l - 1) if rel_auth < acq_l else rel_auth, 'b', ir), ('b', ir, 'a', acq_l)], None)
+                v, out, dt = smt(text)
+                queries += 1
+                solver_s += dt
+                if v == 'inconclusive':
+                    return {'verdict': 'inconclusive', 'reason': out[:200]}
+                if v == 'sat':
+                    failed.append({'description': 'Watcher::%s unwraps a look-up of the user it authenticated in an earlier critical section: a block that purges the user in between aborts the handler' % entry,
+                                   'function': 'Watcher::%s | Gatekeeper::filtered_block_connected' % entry,
+                                   'schedule': {'A': [list(e) for e in ta], 'B': [list(e) for e in tb], 'model': out[:400]}})
+                    hit = True
+                    break
+            if hit:
+                break
+        if not hit and not queries:
+            # nothing is unwrapped: one (trivially unsat) query documents it
+            v, out, dt = smt('(set-logic ALL)\n(assert false)\n(check-sat)\n')
+            queries += 1
+            solver_s += dt
+    return {'verdict': 'fails' if failed else 'holds', 'failed': failed, 'queries': queries, 'solver_s': solver_s,
+            'witness': wit, 'functions': sorted(short(x) for x in sk.functions_seen)}
+
+
 def q_retry_progress(o, tier):
     """C13: (no_spin) inside Retrier::run every way a re-sent appointment can be answered either makes progress (the
     locator leaves the in-memory pending set) or ends the run (the back-off strategy of `retry_notify` then decides when to
@@ -1428,6 +1506,7 @@ QUERIES = {
     'plugin_startup_retry': q_plugin_startup_retry,
     'responder_block_order': q_responder_block_order,
     'insert_conflict': q_insert_conflict,
+    'purge_race': q_purge_race,
 }
 
 
